@@ -62,6 +62,8 @@ func vrtBatchHarness(nocheck bool) {
 			kind = vrt.Choose("kind", 2)
 		case 2:
 			kind = 1
+		case 3: // transfer, conversion, transfer, ... (in-batch credit between two spends)
+			kind = i % 2
 		}
 		if kind == 1 {
 			di := vrt.Choose("dst", len(tickers)-1)
